@@ -86,6 +86,8 @@ func NewHttpsProvider(cfg *serverConfig.HttpsServerConfig, logger sharedTypes.Lo
 		}
 	}
 
+	srvr.Handler = routerMux
+
 	return provider
 }
 
